@@ -105,6 +105,30 @@ def run(ctx):
                              inputs=dict(scheme=s.name, constraints=[str(c) for c in cons], version=v.string), observed=[a, b], expected=[d, want_b])
             if ci % 499 == 0 and len(samples) < 8 and inv is not None:
                 samples.append(dict(scheme=s.name, range=str(rng), inverse=str(inv), nonvacuous_wf=ci in goodset))
+    # ---- the same constraint texts in several schemes, interleaved in one process: nothing may leak from one scheme to another
+    shared = [f"{i}.0.0" for i in range(1, 10)]
+    sch = [k for k in ("npm", "pypi", "gem", "maven", "nuget", "deb", "rpm", "golang", "conan", "generic") if k in vr.RANGE_CLASS_BY_SCHEMES]
+    pats = [cases[ci] for ci in good if cases[ci] and max(p for _, p in cases[ci] if p is not None) // 1 <= 8][: (40 if ctx.tier == "quick" else 400)]
+    for pat in pats:
+        body = "|".join(vers.TEXT[o] + shared[p - 1] if o != "EQ" else shared[p - 1] for o, p in pat if o != "*")
+        if not body:
+            continue
+        for k in sch:
+            rcls_k = vr.RANGE_CLASS_BY_SCHEMES[k]
+            try:
+                rng = vr.VersionRange.from_string(f"vers:{k}/{body}")
+                inv = rng.invert()
+                twice = inv.invert()
+                flips = all((rcls_k.version_class(t) in rng) != (rcls_k.version_class(t) in inv) for t in shared)
+                okk = flips and twice == rng and all(isinstance(c.version, rcls_k.version_class) for c in inv.constraints)
+            except Exception as e:  # noqa
+                okk = False
+                flips = repr(e)
+            evals += 1
+            if not okk:
+                viol(f"{k}: inverting vers:{k}/{body} after the same text was inverted in other schemes: complement/involution/version class fail ({flips})",
+                     inputs=dict(scheme=k, text=f"vers:{k}/{body}", order=sch))
+                break
     if not violations and (diffs or not proofs["ok"]):
         what = ("theorems of Props/C09.v no longer check: " + str(proofs.get("error"))[-400:]) if not proofs["ok"] else \
             ("model and implementation differ: " + str(diffs[0]))
